@@ -31,10 +31,7 @@ def int? (s : String) : Option Int := s.toInt?
 def nat? (s : String) : Option Nat := s.toNat?
 def byte? (s : String) : Option UInt8 := (s.toNat?).map UInt8.ofNat
 
-/-- total encoding of a piece `[off, off+n)` of a string of length `len` -/
-def piece (len a b : Nat) : Nat × Nat :=
-  let off := a % (len + 1)
-  (off, b % (len - off + 1))
+open AslModel.Str.Rep (piece Mut)
 
 /-! ### a small `printf` (libc, modelled): `%[-0][width][.prec](s|c|i|d|u|x|X|lli|lld|llu|llx|%)` -/
 inductive Arg where
@@ -119,41 +116,38 @@ def step (st : St) (ts : List String) : St × String :=
   | ["copy"] => qry st fun r => showO r.copy
   -- in-place mutations
   | ["assign", h] => match unhex h with
-    | some b => upd st fun r => r.assign (.ext b) | none => (st, "bad-op")
+    | some b => upd st fun r => r.mutate (.assign b) | none => (st, "bad-op")
   | ["append", h] => match unhex h with
-    | some b => upd st fun r => r.append (.ext b) | none => (st, "bad-op")
+    | some b => upd st fun r => r.mutate (.append b) | none => (st, "bad-op")
   | ["appendc", c] => match byte? c with
-    | some c => upd st fun r => r.appendChar c | none => (st, "bad-op")
+    | some c => upd st fun r => r.mutate (.appendChar c) | none => (st, "bad-op")
   | ["appendint", x] => match int? x with
-    | some x => upd st fun r => (Rep.ofInt x).bind fun v => r.append (.ext v.toList) | none => (st, "bad-op")
+    | some x => upd st fun r => r.mutate (.appendInt x) | none => (st, "bad-op")
   | ["appendself", a, b] => match nat? a, nat? b with
-    | some a, some b => upd st fun r => let (off, n) := piece r.len a b; r.append (.self off n)
+    | some a, some b => upd st fun r => r.mutate (.appendSelf a b)
     | _, _ => (st, "bad-op")
-  | ["plusself"] => upd st fun r => r.append (.self 0 r.len)
+  | ["plusself"] => upd st fun r => r.mutate .plusSelf
   | ["assignself", a, b] => match nat? a, nat? b with
-    | some a, some b => upd st fun r => let (off, n) := piece r.len a b; r.assign (.self off n)
+    | some a, some b => upd st fun r => r.mutate (.assignSelf a b)
     | _, _ => (st, "bad-op")
   | ["assigntail", a] => match nat? a with
-    | some a => upd st fun r => let off := a % (r.len + 1); r.assign (.self off (r.len - off))
+    | some a => upd st fun r => r.mutate (.assignTail a)
     | none => (st, "bad-op")
-  | ["selfeq"] => upd st fun r => r.assign (.self 0 r.len)
-  | ["trim"] => upd st Rep.trim
-  | ["clear"] => upd st Rep.clear
+  | ["selfeq"] => upd st fun r => r.mutate .selfEq
+  | ["trim"] => upd st fun r => r.mutate .trim
+  | ["clear"] => upd st fun r => r.mutate .clear
   | ["shrink", a] => match nat? a with
-    | some a => upd st fun r => r.resize (a % (r.len + 1)) | none => (st, "bad-op")
+    | some a => upd st fun r => r.mutate (.shrink a) | none => (st, "bad-op")
   | ["grow", n, c] => match nat? n, byte? c with
-    | some n, some c => upd st fun r =>
-        (r.resize (r.len + n)).bind fun r1 => (wr r1.buf r.len (List.replicate n c)).map fun b => { r1 with buf := b }
+    | some n, some c => upd st fun r => r.mutate (.grow n c)
     | _, _ => (st, "bad-op")
   | ["refill", n, c] => match nat? n, byte? c with
-    | some n, some c => upd st fun r =>
-        (r.resize n false).bind fun r1 => (wr r1.buf 0 (List.replicate n c)).map fun b => { r1 with buf := b }
+    | some n, some c => upd st fun r => r.mutate (.refill n c)
     | _, _ => (st, "bad-op")
   | ["reserve", n] => match nat? n with
-    | some n => upd st fun r => r.resize n true false | none => (st, "bad-op")
+    | some n => upd st fun r => r.mutate (.reserve n) | none => (st, "bad-op")
   | ["pokefix", a] => match nat? a with
-    | some a => upd st fun r =>
-        (wr r.buf (a % (r.len + 1)) [0]).map fun b => { r with buf := b, len := (cstr b).length }
+    | some a => upd st fun r => r.mutate (.pokeFix a)
     | none => (st, "bad-op")
   -- queries
   | ["indexof", h, a] => match unhex h, nat? a with
